@@ -12,6 +12,11 @@
   below `v₀` (`.progError`, `.error .dataError`, code 11, `none`, `[]`, `left`) is also a legitimate result of another
   branch — e.g. the abstract payload decoder `E.payload` may itself return `.progError`.)
 
+  DIRECT FORM (audit S-3): for the loops cited by Props/C04 (`blocksLoop`, both `xzLoop`s, `lzipLoop`, `indexDecodeRecords`,
+  `vliSizeAux`, `vliSizeGo`, `streamLoop`, both `nextStreamFrom`s, `bsearch`, `iterAllGo`) Lemmas/C04FuelReachXz.lean and
+  Lemmas/C04FuelReachIndex.lean define Option-valued twins `f?` (`none` iff the `0` branch is REACHED) and prove
+  `measure < fuel → f? fuel x = some (f fuel x)` (`*_reach`): independence alone would also hold for a stuttering loop.
+
   A. FUELLED decoder / parser models and where their fuel is proved sufficient
   ---------------------------------------------------------------------------------------------------------------
   function (Model file:line)                fuel supplied by                  theorem(s)
@@ -82,3 +87,5 @@ import XzVerif.Lemmas.C04FuelIndex
 import XzVerif.Lemmas.C04FuelIter
 import XzVerif.Lemmas.C04FuelMemlimit
 import XzVerif.Lemmas.C04FuelStruct
+import XzVerif.Lemmas.C04FuelReachXz
+import XzVerif.Lemmas.C04FuelReachIndex
